@@ -103,7 +103,25 @@ def trace_int(state):
     return {"sign": int(state.pos[0] > 0), "cid": int(state.cid)}
 
 
+def trace_dotted(state):
+    # keys that differ only after their last period (file names are built from the keys)
+    return {"theta.1": state.pos[0], "theta.2": 10.0 * state.pos[1],
+            "theta.10": float(np.sum(state.pos))}
+
+
+def trace_punct(state):
+    # keys with characters that are not valid in file names (all distinct after sanitising)
+    return {"x[1]": state.pos[0], "x0": 100.0 * state.pos[1], "a b": 2.0 * state.pos[0],
+            "a-b": 3.0 * state.pos[0], "a_b": 4.0 * state.pos[0]}
+
+
+def trace_collide(state):
+    # "x[0]" and "x0" differ only in characters that are not valid in file names
+    return {"x[0]": state.pos[0], "x0": 100.0 * state.pos[1]}
+
+
 TRACE_SETS = {
+    "dotted": [trace_dotted], "punct": [trace_punct], "collide": [trace_collide],
     "none": None, "empty": [], "pos": [trace_pos], "overlap": [trace_overlap_a, trace_overlap_b],
     "int": [trace_pos, trace_int],
 }
@@ -361,6 +379,14 @@ def check_config(cfg, acc):
                     for k, arrs in res["traces"].items():
                         for c, arr in enumerate(arrs):
                             fn = os.path.join(d, f"trace_{c}_{k}.npy")
+                            if not os.path.exists(fn):
+                                # characters not valid in file names are dropped from the key:
+                                # accept the file whose name agrees on the alphanumeric part
+                                alnum = lambda t: "".join(ch for ch in t if ch.isalnum())  # noqa: E731
+                                cands = [f for f in files if f.startswith(f"trace_{c}_")
+                                         and alnum(f[len(f"trace_{c}_"):-4]) == alnum(k)]
+                                if len(cands) == 1:
+                                    fn = os.path.join(d, cands[0])
                             if not os.path.exists(fn) or not eq(np.load(fn), arr):
                                 mkviol(storage, 1)("npy_file_differs", fn, "equal to trace array")
                             n_arrays += 1
@@ -444,6 +470,15 @@ def configs(tier, seed):
                                                 "stager": stager, "init_form": init_form,
                                                 "storages": storages, "processes": procs,
                                                 "seed": seed})
+    # trace keys that stress the file names of memory-mapped storage
+    for tset in ("dotted", "punct", "collide"):
+        for sampler in ("generic", "static"):
+            for n_warm in (0, 2):
+                cfgs.append({"sampler": sampler, "n_chain": 2, "n_warm": n_warm, "n_main": 2,
+                             "trace_warm_up": True, "trace_set": tset, "monitor": False,
+                             "adapters": "none", "stager": "default", "init_form": "state",
+                             "storages": ["memmap_tmp", "memmap_dir"],
+                             "processes": [2] if n_warm == 0 else [], "seed": seed})
     # the documented 'use all CPUs' setting
     for sampler in ("generic", "static"):
         cfgs.append({"sampler": sampler, "n_chain": 2, "n_warm": 0, "n_main": 2,
